@@ -410,45 +410,81 @@ end Thanos.Hashring
 
 namespace Thanos.RingMetrics
 
-/-- C19 for the loader, at full strength: loading a configuration on a fresh registerer never panics -/
-def C19_load_full : Prop := ∀ cfg, load [] cfg ≠ .panic
+/-- C19 for the loader, at full strength: loading a configuration never panics, whatever is
+    registered already -/
+def C19_load_full (shared : Bool) : Prop := ∀ reg cfg, load shared reg cfg ≠ .panic
 
-/-- false: two shuffle sharded hashrings without a name (known finding load-panic-duplicate-metrics) -/
-theorem C19_load_full_false : ¬ C19_load_full := by
+/-- **repaired code:** it holds -/
+theorem C19_load_total : C19_load_full true := by
+  intro reg cfg
+  induction cfg generalizing reg with
+  | nil => simp [load]
+  | cons c rest ih =>
+    obtain ⟨name, sharded⟩ := c
+    cases sharded <;> simp [load, ih]
+
+/-- as it was: false — two shuffle sharded hashrings without a name (fixed finding
+    load-panic-duplicate-metrics) -/
+theorem C19_load_unrepaired_false : ¬ C19_load_full false := by
   intro h
-  exact h [("", true), ("", true)] (by decide)
+  exact h [] [("", true), ("", true)] (by decide)
 
-theorem load_ne_panic_of_fresh : ∀ (cfg : List (String × Bool)) (reg : Registry),
-    ((cfg.filter (·.2)).map (·.1)).Nodup → (∀ c ∈ cfg, c.2 = true → c.1 ∉ reg) → load reg cfg ≠ .panic
-  | [], _, _, _ => by simp [load]
-  | (name, sharded) :: rest, reg, hn, hf => by
-    unfold load
+theorem load_shared_eq : ∀ (cfg : List (String × Bool)) (reg : Registry),
+    load true reg cfg = .ok ((shardedNames cfg).reverse ++ reg)
+  | [], reg => by simp [load, shardedNames]
+  | (name, sharded) :: rest, reg => by
     cases sharded with
-    | false =>
-      simp only [Bool.false_eq_true, if_false]
-      exact load_ne_panic_of_fresh rest reg (by simpa using hn) (fun c hc => hf c (by simp [hc]))
+    | false => simpa [load, shardedNames] using load_shared_eq rest reg
     | true =>
-      have h1 : reg.contains name = false := by
-        have := hf (name, true) (by simp) rfl
-        simpa using this
-      simp only [if_true, h1, Bool.false_eq_true, if_false]
-      have hn' : name ∉ (rest.filter (·.2)).map (·.1) ∧ ((rest.filter (·.2)).map (·.1)).Nodup := by
-        simpa using hn
-      apply load_ne_panic_of_fresh rest (name :: reg) hn'.2
-      intro c hc hs hmem
-      simp only [List.mem_cons] at hmem
-      rcases hmem with h | h
-      · apply hn'.1
-        simp only [List.mem_map, List.mem_filter]
-        exact ⟨c, ⟨hc, hs⟩, h⟩
-      · exact hf c (by simp [hc]) hs h
+      have := load_shared_eq rest (name :: reg)
+      simp only [load, if_true, Bool.not_true, Bool.false_and, Bool.false_eq_true, if_false, this]
+      simp [shardedNames]
 
-/-- it holds exactly when the shuffle sharded hashrings have pairwise different names -/
-theorem C19_load_partial (cfg : List (String × Bool)) (h : ((cfg.filter (·.2)).map (·.1)).Nodup) :
-    load [] cfg ≠ .panic :=
-  load_ne_panic_of_fresh cfg [] h (by simp)
+theorem count_release (n : String) : ∀ (names : List String) (reg : Registry),
+    (release reg names).count n = reg.count n - names.count n
+  | [], reg => by simp [release]
+  | a :: names, reg => by
+    rw [release, count_release n names (reg.erase a), List.count_erase, List.count_cons]
+    by_cases h : a = n
+    · subst h; simp; omega
+    · have : (n == a) = false := by simp [Ne.symm h]
+      simp [this, h]
 
-theorem load_mono : ∀ (cfg : List (String × Bool)) (reg reg' : Registry), load reg cfg = .ok reg' →
+/-- **repaired code, configuration update.**  After any update every shuffle sharded hashring
+    of the new configuration still has its metrics registered (the old hashring's `Close` only
+    releases its own use), and the update never panics. -/
+theorem C19_reload_keeps_metrics (old new : List (String × Bool)) (reg reg' : Registry)
+    (hold : load true [] old = .ok reg) (h : update true reg old new = .ok reg') :
+    ∀ n, (n, true) ∈ new → n ∈ reg' := by
+  intro n hn
+  rw [load_shared_eq] at hold
+  injection hold with hold
+  simp only [update, load_shared_eq, close, Load.ok.injEq] at h
+  have hc := count_release n (shardedNames old) ((shardedNames new).reverse ++ reg)
+  rw [h] at hc
+  have hnew : 0 < (shardedNames new).count n := by
+    apply List.count_pos_iff.mpr
+    simp only [shardedNames, List.mem_map, List.mem_filter]
+    exact ⟨(n, true), ⟨hn, rfl⟩, rfl⟩
+  have hreg : reg.count n = (shardedNames old).count n := by
+    rw [← hold]; simp
+  rw [List.count_append, List.count_reverse, hreg] at hc
+  exact List.count_pos_iff.mp (by omega)
+
+/-- … and closing every hashring that was loaded leaves nothing registered -/
+theorem C19_metrics_released (cfg : List (String × Bool)) (reg : Registry)
+    (h : load true [] cfg = .ok reg) : close reg cfg = [] := by
+  rw [load_shared_eq] at h
+  injection h with h
+  apply List.eq_nil_iff_forall_not_mem.mpr
+  intro n hn
+  have hc := count_release n (shardedNames cfg) reg
+  have hpos : 0 < (close reg cfg).count n := List.count_pos_iff.mpr hn
+  simp only [close] at hpos
+  have hreg : reg.count n = (shardedNames cfg).count n := by rw [← h]; simp
+  omega
+
+theorem load_mono_unrepaired : ∀ (cfg : List (String × Bool)) (reg reg' : Registry), load false reg cfg = .ok reg' →
     ∀ n, (n ∈ reg ∨ (n, true) ∈ cfg) → n ∈ reg'
   | [], reg, reg', h, n, hn => by
     simp only [load, Load.ok.injEq] at h; subst h
@@ -458,17 +494,17 @@ theorem load_mono : ∀ (cfg : List (String × Bool)) (reg reg' : Registry), loa
     cases sharded with
     | false =>
       simp only [Bool.false_eq_true, if_false] at h
-      apply load_mono rest reg reg' h n
+      apply load_mono_unrepaired rest reg reg' h n
       rcases hn with hn | hn
       · exact Or.inl hn
       · simp at hn; exact Or.inr hn
     | true =>
-      simp only [if_true] at h
+      simp only [if_true, Bool.not_false, Bool.true_and] at h
       by_cases hc : reg.contains name = true
       · have hc' : name ∈ reg := by simpa using hc
         simp [hc'] at h
       · simp only [hc, Bool.false_eq_true, if_false] at h
-        apply load_mono rest (name :: reg) reg' h n
+        apply load_mono_unrepaired rest (name :: reg) reg' h n
         rcases hn with hn | hn
         · exact Or.inl (by simp [hn])
         · simp only [List.mem_cons, Prod.mk.injEq, and_true] at hn
@@ -477,7 +513,7 @@ theorem load_mono : ∀ (cfg : List (String × Bool)) (reg reg' : Registry), loa
           · exact Or.inr hn
 
 theorem load_panic_of_registered : ∀ (cfg : List (String × Bool)) (reg : Registry) (n : String),
-    (n, true) ∈ cfg → n ∈ reg → load reg cfg = .panic
+    (n, true) ∈ cfg → n ∈ reg → load false reg cfg = .panic
   | [], _, _, h, _ => by simp at h
   | (name, sharded) :: rest, reg, n, h, hr => by
     unfold load
@@ -489,7 +525,7 @@ theorem load_panic_of_registered : ∀ (cfg : List (String × Bool)) (reg : Regi
       · cases h
       · exact load_panic_of_registered rest reg n h hr
     | true =>
-      simp only [if_true]
+      simp only [if_true, Bool.not_false, Bool.true_and]
       by_cases hc : reg.contains name = true
       · have hc' : name ∈ reg := by simpa using hc
         simp [hc']
@@ -498,41 +534,30 @@ theorem load_panic_of_registered : ∀ (cfg : List (String × Bool)) (reg : Regi
         · subst h; simp at hc; exact absurd hr hc
         · exact load_panic_of_registered rest (name :: reg) n h (by simp [hr])
 
-/-- **Known finding reload-panic-duplicate-metrics, in general.**  Whatever the configuration: if it
-    loads and contains a shuffle sharded hashring, loading it again with the same registerer —
-    the first step of every hashring file update — panics. -/
-theorem C19_reload_panics (cfg : List (String × Bool)) (reg : Registry) (n : String)
-    (hs : (n, true) ∈ cfg) (h : load [] cfg = .ok reg) : update reg cfg cfg = .panic := by
-  have hm : n ∈ reg := load_mono cfg [] reg h n (Or.inr hs)
+/-- **as it was (fixed finding reload-panic-duplicate-metrics), in general.**  Whatever the
+    configuration: if it loads and contains a shuffle sharded hashring, loading it again with the
+    same registerer — the first step of every hashring file update — panicked. -/
+theorem C19_reload_unrepaired_panics (cfg : List (String × Bool)) (reg : Registry) (n : String)
+    (hs : (n, true) ∈ cfg) (h : load false [] cfg = .ok reg) : update false reg cfg cfg = .panic := by
+  have hm : n ∈ reg := load_mono_unrepaired cfg [] reg h n (Or.inr hs)
   simp [update, load_panic_of_registered cfg reg n hs hm]
 
-/-- without shuffle sharding an update never panics -/
-theorem C19_reload_partial (old new : List (String × Bool)) (reg : Registry)
-    (h : ∀ c ∈ new, c.2 = false) : update reg old new ≠ .panic := by
-  have : load reg new ≠ .panic := by
-    apply load_ne_panic_of_fresh
-    · have : new.filter (·.2) = [] := by
-        rw [List.filter_eq_nil_iff]
-        intro c hc; simp [h c hc]
-      simp [this]
-    · intro c hc hs; rw [h c hc] at hs; cases hs
-  unfold update
-  cases hl : load reg new with
-  | panic => exact absurd hl this
-  | ok r => simp
-
-/-- the collectors are registered with promauto (MustRegister) -/
-theorem C19_fact_metrics_registration :
-    Thanos.Facts.shuffleShardMetricsRegistration = ["promauto.With", "promauto.With", "promauto.With", "promauto.With", "promauto.With"] := by
-  decide
+/-- the constructor looks the shared metrics up before it registers anything, and `close` only
+    unregisters for the last user -/
+theorem C19_fact_metrics_shared :
+    Thanos.Facts.shuffleShardMetricsShared =
+      ["if:ok", "m.users++", "return", "registerShuffleShardCacheMetrics"] ∧
+    Thanos.Facts.shuffleShardMetricsClose = ["s.users--", "if:s.users > 0", "return", "delete", "Unregister"] := by decide
 
 /-- a file update builds the new hashring first; the handler closes the old one when the new one is installed -/
 theorem C19_fact_reload_order :
     Thanos.Facts.hashringReloadOrder = ["receive.NewMultiHashring", "webHandler.Hashring"] ∧
       Thanos.Facts.handlerHashringSwap = ["h.hashring.Close"] := by decide
 
-example : update ["h"] [("h", true)] [("h", true)] = .panic := by decide
-example : load [] [("a", true), ("", false), ("b", true)] = .ok ["b", "a"] := by decide
+example : update false ["h"] [("h", true)] [("h", true)] = .panic := by decide
+example : update true ["h"] [("h", true)] [("h", true)] = .ok ["h"] := by decide
+example : load true [] [("a", true), ("", false), ("a", true)] = .ok ["a", "a"] := by decide
+example : close ["a", "a"] [("a", true), ("", false), ("a", true)] = [] := by decide
 
 end Thanos.RingMetrics
 
